@@ -20,6 +20,8 @@ pub struct Stats {
     pub big_blocks: AtomicU64,
     pub block_level: AtomicU64,
     pub huge_symbols: AtomicU64,
+    pub all_kprime: AtomicU64,
+    pub all_kprime_solved: AtomicU64,
 }
 
 pub struct Case {
@@ -61,19 +63,40 @@ pub fn gen_case(seed: u64, idx: u64, family: u64, max_kt: usize, max_t: usize) -
         let Kt = rng.range(1, 120) as usize;
         let Z = rng.range(1, Kt.min(3) as u64) as usize;
         Shape { F: Kt * T - rng.below(T as u64) as usize, T, Z, N, Al }
+    } else if family == 3 {
+        // every extended block size K' of Table 2: K = K' (no padding symbols) and K = previous K' + 1
+        // (the most padding symbols this K' can have); idx = 2 * row (+1) + 954 * repetition
+        let row = (idx as usize % 954) / 2;
+        let kp = crate::golden::TABLE2[row].0 as usize;
+        let K = if idx % 2 == 0 { kp } else if row == 0 { 1 } else { crate::golden::TABLE2[row - 1].0 as usize + 1 };
+        let T = *rng.pick(&[1usize, 2, 4, 8]);
+        let N = if T >= 2 && rng.chance(1, 4) { 2 } else { 1 };
+        Shape { F: K * T - if rng.chance(1, 2) { rng.below(T as u64) as usize } else { 0 }, T, Z: 1, N, Al: 1 }
     } else {
         gen_shape(&mut rng, max_kt, max_t, 8)
     };
     let (data, data_kind) = make_data(&mut rng, shape.F);
-    let threshold = *rng.pick(&THRESHOLDS);
+    // the dense back-end is cubic: above 1000 symbols only the sparse thresholds are drawn for the K' sweep
+    let threshold = if family == 3 && shape.kt() > 1000 { *rng.pick(&THRESHOLDS[..2]) } else { *rng.pick(&THRESHOLDS) };
     let incremental_api = rng.chance(2, 5);
     let ks = shape.block_ks();
     let drop_pct = if family == 1 { rng.below(4) } else { *rng.pick(&[0u64, 0, 5, 10, 20, 30, 50, 70]) };
     let mut history: Vec<(u8, u32)> = vec![];
     for (z, &K) in ks.iter().enumerate() {
         let mut lost = 0usize;
+        // family 3 loses 1..4 chosen source symbols (first / last / random) instead of a percentage
+        let mut chosen: HashSet<usize> = HashSet::new();
+        if family == 3 {
+            for _ in 0..rng.range(1, 4) {
+                chosen.insert(match rng.below(4) {
+                    0 => 0,
+                    1 => K - 1,
+                    _ => rng.below(K as u64) as usize,
+                });
+            }
+        }
         for esi in 0..K {
-            if rng.below(100) < drop_pct {
+            if chosen.contains(&esi) || (family != 3 && rng.below(100) < drop_pct) {
                 lost += 1;
                 continue;
             }
@@ -82,7 +105,7 @@ pub fn gen_case(seed: u64, idx: u64, family: u64, max_kt: usize, max_t: usize) -
         // repair packets: sometimes fewer than lost (never completes), usually a little more
         // (a large overhead, delivered as one batch at block level, is what reaches the decoder's
         // GF(2)-only attempt: it needs at least K + H distinct symbols)
-        let r = match rng.below(7) {
+        let r = match if family == 3 { 3 + rng.below(4) } else { rng.below(7) } {
             0 => lost.saturating_sub(1),
             1 => lost,
             2 => lost + rng.range(10, 40) as usize,
@@ -105,7 +128,7 @@ pub fn gen_case(seed: u64, idx: u64, family: u64, max_kt: usize, max_t: usize) -
         }
     }
     // duplication 0..3x
-    let dup_pct = *rng.pick(&[0u64, 0, 10, 30]);
+    let dup_pct = if family == 3 { 0 } else { *rng.pick(&[0u64, 0, 10, 30]) };
     let n0 = history.len();
     for i in 0..n0 {
         if rng.below(100) < dup_pct {
@@ -345,6 +368,31 @@ pub fn run(ctx: &Ctx) -> i32 {
         st.huge_symbols.fetch_add(1, Relaxed);
         ctx.eval(1);
     });
+    // every K' of Table 2, with and without padding symbols, decoded through the solver
+    let reps = ctx.args.ex_u64("kprime_reps", ctx.args.pick(1, 6)) as usize;
+    let solved_before = st.solved_via_repair.load(Relaxed);
+    // quick: every K' up to kprime_max plus every 16th larger one (rotating with the seed); thorough: all
+    let kprime_max = ctx.args.ex_u64("kprime_max", ctx.args.pick(12000, 56403)) as usize;
+    par_for(954 * reps, |i| {
+        if ctx.too_many_violations() {
+            return;
+        }
+        let row = (i % 954) / 2;
+        if crate::golden::TABLE2[row].0 as usize > kprime_max && (row as u64 + ctx.seed()) % 16 != 0 {
+            return;
+        }
+        let c = gen_case(ctx.seed(), i as u64, 3, 0, 0);
+        let rj = case_json(ctx.seed(), i as u64, 3, 0, 0, &c);
+        run_case(ctx, &c, rj.clone(), &st);
+        if c.shape.kt() <= 3000 {
+            run_block_case(ctx, &c, rj, &st);
+        }
+        st.all_kprime.fetch_add(1, Relaxed);
+        ctx.eval(1);
+    });
+    st.all_kprime_solved.store(st.solved_via_repair.load(Relaxed) - solved_before, Relaxed);
+    ctx.cov("all_477_Kprime_x_{K=K',K=prevK'+1}_decode_cases", J::i(st.all_kprime.load(Relaxed)));
+    ctx.cov("all_Kprime_cases_answered_through_the_solver", J::i(st.all_kprime_solved.load(Relaxed)));
     let ev = raptorq::verif::events::read();
     ctx.cov("cases_with_symbol_size_1500_to_65535", J::i(st.huge_symbols.load(Relaxed)));
     ctx.cov("decoder_calls_monitored", J::i(st.calls.load(Relaxed)));
@@ -368,6 +416,9 @@ pub fn run(ctx: &Ctx) -> i32 {
     ctx.floor("cases_with_Z_gt_1", st.z_gt1.load(Relaxed), if q { 100 } else { 20 });
     ctx.floor("cases_with_N_gt_1", st.n_gt1.load(Relaxed), if q { 100 } else { 20 });
     ctx.floor("cases_with_padding", st.padded.load(Relaxed), if q { 100 } else { 20 });
+    if ctx.args.ex("n").is_none() {
+        ctx.floor("all_Kprime_cases_answered_through_the_solver", st.all_kprime_solved.load(Relaxed), 400);
+    }
     ctx.floor("cases_answered_Some_through_the_solver_before_all_source_arrived", st.solved_via_repair.load(Relaxed), if q { 300 } else { 20 });
     ctx.finish(
         "case = valid configuration (stratified F,T,Z,N,Al incl. padding, symbol sizes up to 65535 and sub-block counts up to T/Al, Kt mod Z != 0, (T/Al) mod N != 0, K crossing 10/11 and the dense/sparse switch) x data (random/zero/0xFF/one-hot/position-coded) x delivery history (random sub-multiset of the encoder's source packets and repair packets with ESIs from {K.., uniform in [K,2^24), 2^24-1}; loss 0-70 %, duplicates 0-3x; in order / reversed / shuffled) x sparse threshold {0,250,inf} x {decode, add_new_packet+get_result}; after EVERY decoder call the return value must be None or exactly the object, and Some once every source packet of every block was delivered; block-level decode must return exactly the block's K*T bytes. non-trivial = the first Some arrived while some block's source set was incomplete (answer produced by the solver); distinct by (shape, threshold, history)",
